@@ -218,6 +218,53 @@ fn area(rng: &mut Rng, sheet: u32) -> AreaS {
     AreaS { sheet, row: r.min(12), col: c.min(8), w: rng.range(1, 3) as i32, h: rng.range(1, 3) as i32 }
 }
 
+/// Scripted history prefixes: every (state modifier, structural operation) pair, and the
+/// defined-name scope changes. History number `h` of every driver starts with `scenario(h)`
+/// (empty beyond the list) and continues with generated operations, so the scripted operations
+/// go through exactly the same checks as generated ones. The list enumerates small discrete
+/// dimensions that random generation reaches only rarely (a move that lands on hidden rows,
+/// a descriptor exactly at the insertion point, a name that changes scope).
+pub fn scenarios() -> Vec<Vec<Op>> {
+    let mut v: Vec<Vec<Op>> = vec![];
+    let mods: Vec<Op> = vec![
+        Op::RowsHidden { sheet: 0, a: 2, b: 3, hidden: true },
+        Op::RowsHidden { sheet: 0, a: 4, b: 5, hidden: true },
+        Op::ColsHidden { sheet: 0, a: 2, b: 3, hidden: true },
+        Op::ColsHidden { sheet: 0, a: 4, b: 5, hidden: true },
+        Op::RowsHeight { sheet: 0, a: 2, b: 2, h: 42.0 },
+        Op::RowsHeight { sheet: 0, a: 6, b: 7, h: 42.0 },
+        Op::ColsWidth { sheet: 0, a: 2, b: 2, w: 120.0 },
+        Op::ColsWidth { sheet: 0, a: 6, b: 7, w: 120.0 },
+    ];
+    let mut targets: Vec<Op> = vec![];
+    for (at, delta) in [(1, 1), (1, 2), (2, 1), (6, -1), (6, -2), (7, -3), (3, 3)] {
+        targets.push(Op::MoveRows { sheet: 0, at, n: 1, delta });
+        targets.push(Op::MoveCols { sheet: 0, at, n: 1, delta: delta.clamp(-2, 2) });
+    }
+    targets.push(Op::MoveRows { sheet: 0, at: 1, n: 2, delta: 2 });
+    for at in [2, 3, 6] {
+        targets.push(Op::InsertRows { sheet: 0, at, n: 1 });
+        targets.push(Op::InsertCols { sheet: 0, at, n: 1 });
+        targets.push(Op::DeleteRows { sheet: 0, at, n: 1 });
+        targets.push(Op::DeleteCols { sheet: 0, at, n: 1 });
+    }
+    for m in &mods { for t in &targets { v.push(vec![m.clone(), t.clone()]); } }
+    let scopes = [None, Some(0u32), Some(1u32)];
+    for s in scopes { for ns in scopes {
+        if s == ns { continue; }
+        for (nn, f) in [("Name1", "Sheet1!$B$2"), ("Renamed", "Sheet1!$A$1")] {
+            let upd = Op::UpdateName { name: "Name1".into(), scope: s, new_name: nn.into(), new_scope: ns, formula: f.into() };
+            v.push(vec![Op::NewName { name: "Name1".into(), scope: s, formula: "Sheet1!$A$1".into() }, upd.clone()]);
+            v.push(vec![
+                Op::NewName { name: "Name1".into(), scope: s, formula: "Sheet1!$A$1".into() },
+                Op::Input { sheet: 0, row: 9, col: 2, text: "=Name1+1".into() },
+                upd,
+            ]);
+        }
+    } }
+    v
+}
+
 /// a mostly-valid operation (≈ 85 % valid, 10 % boundary, 5 % invalid arguments)
 pub fn gen_op(rng: &mut Rng, ctx: &GenCtx, allow_undo_redo: bool) -> Op {
     let ns = ctx.nsheets.max(1);
@@ -256,7 +303,7 @@ pub fn gen_op(rng: &mut Rng, ctx: &GenCtx, allow_undo_redo: bool) -> Op {
         85 => Op::GridLines(sheet, rng.chance(1, 2)),
         86..=87 => Op::NewName { name: rng.pick(&["Name1", "Name2", "rate", "A1", "bad name", "Name1"]).to_string(), scope: if rng.chance(1, 3) { Some(sheet) } else { None }, formula: rng.pick(&["Sheet1!$A$1", "Sheet1!$A$1:$B$2", "42", "=Sheet1!$C$3", "LAMBDA(x,x+1)"]).to_string() },
         88 => match ctx.names.first() { Some((n, s)) => Op::DeleteName { name: n.clone(), scope: *s }, None => Op::DeleteName { name: "nope".into(), scope: None } },
-        89 => match ctx.names.last() { Some((n, s)) => Op::UpdateName { name: n.clone(), scope: *s, new_name: rng.pick(&["Renamed", "Name2", "rate2"]).to_string(), new_scope: *s, formula: rng.pick(&["Sheet1!$B$2", "7"]).to_string() }, None => Op::UpdateName { name: "nope".into(), scope: None, new_name: "x".into(), new_scope: None, formula: "1".into() } },
+        89 => match ctx.names.last() { Some((n, s)) => Op::UpdateName { name: n.clone(), scope: *s, new_name: rng.pick(&["Renamed", "Name2", "rate2"]).to_string(), new_scope: if rng.chance(1, 3) { *rng.pick(&[None, Some(0u32), Some(1u32)]) } else { *s }, formula: rng.pick(&["Sheet1!$B$2", "7"]).to_string() }, None => Op::UpdateName { name: "nope".into(), scope: None, new_name: "x".into(), new_scope: None, formula: "1".into() } },
         90 => Op::Timezone(rng.pick(&["UTC", "Europe/Berlin", "Mars/Olympus"]).to_string()),
         91 => Op::Locale(rng.pick(&["en", "de", "fr", "es", "en-GB", "xx"]).to_string()),
         92 => Op::WorkbookName(rng.pick(&["book", "other", ""]).to_string()),
@@ -303,6 +350,15 @@ pub fn seed_workbook<'a>() -> UserModel<'a> {
     let _ = m.new_sheet();
     let _ = m.set_user_input(1, 1, 1, "=Sheet1!A3*2");
     let _ = m.set_columns_width(0, 2, 2, 130.0);
+    m
+}
+
+/// numbers only, two sheets: the workbook of the scripted histories (see `scenarios`)
+pub fn plain_workbook<'a>() -> UserModel<'a> {
+    let mut m = UserModel::new_empty("book", "en", "UTC", "en").unwrap();
+    for r in 1..=9 { for c in 1..=7 { let _ = m.set_user_input(0, r, c, &format!("{}", r * 100 + c)); } }
+    let _ = m.new_sheet();
+    let _ = m.set_user_input(1, 1, 1, "7");
     m
 }
 
